@@ -229,6 +229,11 @@ def composites(kind):
     out = []
     for names in COMPOSITES.get(kind, []):
         out.append(composite(*[by_name(n) for n in names]))
+    # the same components in reversed order (same totals per entity kind, different layout), so that both orders
+    # are used within one process
+    for names in COMPOSITES.get(kind, []):
+        if len(names) == 2:
+            out.append(composite(*[by_name(n) for n in reversed(names)]))
     # vector x scalar (Taylor-Hood like)
     if kind in ("tri", "tet", "quad", "hex"):
         hi = {"tri": "ElementTriP2", "tet": "ElementTetP2", "quad": "ElementQuad2", "hex": "ElementHex2"}[kind]
